@@ -120,6 +120,13 @@ class SymSet:
         self.pred, self.label = pred, label
 
 
+class MapIter:
+    """dict.values() / .items() / .keys() of a heap map: iterated through the map's key sequence ($len/$item of the map)"""
+
+    def __init__(self, m, mode):
+        self.m, self.mode = m, mode
+
+
 class StarArg:
     """*seq in a call where seq is a heap sequence of unknown length (only assumed library contracts accept it)"""
 
